@@ -502,7 +502,7 @@ LAYOUTS = ['as-built', 'touch-sample', 'touch-obs', 'touch-both',
            'pickled', 'narrow-dtype-input', 'after-queries',
            'csr-duplicate-entries', 'csc-duplicate-entries',
            'table-subclass', 'zero-written-csr', 'zero-written-csc',
-           'ids-partly-numbers']
+           'ids-partly-numbers', 'ids-object-dtype']
 
 
 _SUBCLASS = {}
@@ -549,6 +549,14 @@ def apply_layout(biom, spec, recipe, r):
             pos = lo + int(np.searchsorted(mat.indices[lo:hi], minor))
             mat.data[pos] = 0.0
         return t
+    if recipe == 'ids-object-dtype':
+        # ids handed over as object arrays (what a pandas Index of text is)
+        return biom.Table(spec.D.copy(),
+                          np.array(list(spec.obs_ids), dtype=object),
+                          np.array(list(spec.samp_ids), dtype=object),
+                          copy.deepcopy(spec.obs_md),
+                          copy.deepcopy(spec.samp_md), type=spec.type,
+                          table_id=spec.table_id)
     if recipe == 'ids-partly-numbers':
         # id lists as user code has them: the ids that are whole numbers
         # given as ints, the others as text (numpy makes text of them all)
